@@ -16,6 +16,7 @@ type heapTarget struct {
 	base   ssa.Value    // pointer / slice / map value defined outside the loop; nil = unknown (whole heap)
 	fields map[int]bool // heapP: top-level fields written; nil = whole object
 	baseTerm string     // explicit term (from modifies clauses)
+	capWin   bool       // heapA: writes may reach up to cap (append/copy), not just len
 }
 
 type effects struct {
@@ -229,7 +230,7 @@ func (f *Frame) callEffects(in ssa.CallInstruction, blocks map[*ssa.BasicBlock]b
 			if st, ok := sl.Type().Underlying().(*types.Slice); ok {
 				srt := e.sortOf(st.Elem())
 				ef.heapAT[srt] = st.Elem()
-				t := heapTarget{}
+				t := heapTarget{capWin: true}
 				if f.definedOutside(sl, blocks) {
 					t.base = sl
 				}
@@ -616,6 +617,8 @@ func (f *Frame) havocHeaps(ef *effects, cur, st *State, wmIn string) {
 		targeted := true
 		var bases []string
 		seen := map[string]bool{}
+		windows := map[string][2]string{}
+		noWindow := map[string]bool{}
 		for _, t := range ts {
 			if t.base == nil && t.baseTerm == "" {
 				targeted = false
@@ -626,12 +629,28 @@ func (f *Frame) havocHeaps(ef *effects, cur, st *State, wmIn string) {
 				bv := f.val(t.base)
 				if bv.Loc != nil && bv.Loc.Kind == LElem {
 					bt = bv.Loc.Base
+					noWindow[bt] = true
 				} else if bv.S != "" {
 					bt = "(s.arr " + bv.S + ")"
+					hiT := "(+ (s.off " + bv.S + ") (s.len " + bv.S + "))"
+					if t.capWin {
+						hiT = "(+ (s.off " + bv.S + ") (s.cap " + bv.S + "))"
+					}
+					nw := [2]string{"(s.off " + bv.S + ")", hiT}
+					if ow, dup := windows[bt]; dup && ow != nw {
+						if ow[0] == nw[0] && strings.Contains(ow[1], "s.cap") {
+							nw = ow // same slice, wider window wins
+						} else if !(ow[0] == nw[0] && strings.Contains(nw[1], "s.cap")) {
+							noWindow[bt] = true // two different slices over the same array: no window claim
+						}
+					}
+					windows[bt] = nw
 				} else {
 					targeted = false
 					break
 				}
+			} else {
+				noWindow[bt] = true
 			}
 			if !seen[bt] {
 				seen[bt] = true
@@ -642,6 +661,10 @@ func (f *Frame) havocHeaps(ef *effects, cur, st *State, wmIn string) {
 			h := old
 			for _, bt := range bases {
 				fresh := e.freshConst("arr", "(Array Int "+srt+")")
+				// writes through a slice stay inside its window [off, off+len) (or +cap for append/copy)
+				if w, ok := windows[bt]; ok && !noWindow[bt] {
+					e.assume("true", fmt.Sprintf("(forall ((q.i Int)) (! (=> (or (< q.i %s) (>= q.i %s)) (= (select %s q.i) (select (select %s %s) q.i))) :pattern ((select %s q.i))))", w[0], w[1], fresh, old, bt, fresh))
+				}
 				h = fmt.Sprintf("(store %s %s %s)", h, bt, fresh)
 			}
 			st.heapA[srt] = e.define("ha", e.heapASort(srt), h)
